@@ -195,7 +195,8 @@ Definition view (v6 : bool) (r : mrule) : mrule := mkMRule (m_rd r) (canon v6 (m
 
 (* the meaning of a parsed/written component: matched bits as an integer *)
 Definition pattern (m off : Z) (bytes : list Z) : Z :=
-  (be_val 0 (ltake (size m) bytes) / 2 ^ (8 * size m - m)) mod 2 ^ (m - off).
+  let x := be_val 0 (ltake (size m) bytes) / 2 ^ (8 * size m - m) in   (* the first m bits *)
+  if off =? 0 then x else x mod 2 ^ (m - off).
 Definition abs_comp (c : mcomp) : comp :=
   match c with
   | MPfx t m off a => CPfx t m off (pattern m off a)
